@@ -314,7 +314,7 @@ func (m *model) advance(l *lane, o *obs) *verdict {
 
 // step applies one operation to the model, consuming the observations made during the call.
 // solicited reports whether the op was a client answer to an outstanding prompt.
-func (m *model) step(op Op, in *inst, o *obs) (v *verdict, unsolicited bool) {
+func (m *model) step(op Op, in *inst, o *obs, handled bool) (v *verdict, unsolicited bool) {
 	switch op.K {
 	case "Q":
 		l := m.lane(op)
@@ -326,6 +326,30 @@ func (m *model) step(op Op, in *inst, o *obs) (v *verdict, unsolicited bool) {
 		}
 	case "R":
 		l := m.lane(op)
+		if a := m.applied[op.P]; !l.outstanding && m.modern && a != nil && packet.ResponseStatus(op.S) == packet.SuccessfulResourcePackResponseStatus {
+			// A >=1.20.3 client repeats SUCCESSFUL for a pack that is already applied (it does so when it
+			// switches servers). Nothing is outstanding, but the answer still belongs to a known pack with a
+			// known origin: a backend-origin pack's answer is reported to the backend, a proxy-origin pack's
+			// answer is not (and is consumed: handled==true, or the caller would pass it on to the backend).
+			if len(o.req) > 0 {
+				return fail("prompt-after-repeated-success", "a repeated SUCCESSFUL for applied pack %s made the proxy send request(s) %v", a.url, o.req), false
+			}
+			got := take(&o.back, "SUCCESSFUL|"+a.url)
+			if a.backend && !got && !m.noBackend {
+				return fail("backend-pack-response-not-reported", "client repeated SUCCESSFUL for the applied backend-origin pack %s but the backend got %v", a.url, o.back), false
+			}
+			if !a.backend && got {
+				return fail("proxy-pack-reported-to-backend", "client repeated SUCCESSFUL for the applied proxy-origin pack %s and it was written to the backend", a.url), false
+			}
+			if len(o.back) > 0 {
+				return fail("unexpected-backend-report", "repeated SUCCESSFUL for applied pack %s: response(s) %v were written to the backend", a.url, o.back), false
+			}
+			if handled == a.backend {
+				return fail("response-handled-flag", "repeated SUCCESSFUL for applied pack %s (backend-origin=%v): OnResourcePackResponse reported handled=%v; a proxy-origin answer must be consumed (true), a backend-origin one passed on (false)", a.url, a.backend, handled), false
+			}
+			o.ev = nil // whether a status event fires for the repetition is not stated
+			return nil, false
+		}
 		if !l.outstanding {
 			// unsolicited: the statement only promises that the call returns and that no
 			// prompt is invented
@@ -343,6 +367,9 @@ func (m *model) step(op Op, in *inst, o *obs) (v *verdict, unsolicited bool) {
 		}
 		if !head.backend && got {
 			return fail("proxy-pack-reported-to-backend", "client answered %s for proxy-origin pack %s and it was written to the backend", st, head.url), false
+		}
+		if handled == head.backend {
+			return fail("response-handled-flag", "client answered %s for pack %s (backend-origin=%v): OnResourcePackResponse reported handled=%v; a proxy-origin answer must be consumed (true), a backend-origin one passed on (false)", st, head.url, head.backend, handled), false
 		}
 		take(&o.ev, st+"|"+head.url)
 		switch packet.ResponseStatus(op.S) {
@@ -546,6 +573,7 @@ func play(sc scenario, h []Op, x *sched.X, pr *playResult) {
 		var in *inst
 		var call func()
 		refusedFresh := ""
+		handled := false
 		switch op.K {
 		case "Q":
 			seq++
@@ -583,8 +611,10 @@ func play(sc scenario, h []Op, x *sched.X, pr *playResult) {
 			// a vanilla client echoes the hash of the pack it was prompted with (<=1.9) / the id
 			if l := m.lane(op); l.outstanding {
 				b.Hash = resourcepack.Hash(l.q[0].url)
+			} else if a := m.applied[op.P]; modern && a != nil {
+				b.Hash = resourcepack.Hash(a.url) // (only identifies the pack in the recorded backend packet)
 			}
-			call = func() { _, _ = hd.OnResourcePackResponse(b) }
+			call = func() { handled, _ = hd.OnResourcePackResponse(b) }
 		case "X":
 			call = func() { hd.Remove(packIDs[op.P]) }
 		case "C":
@@ -659,7 +689,7 @@ func play(sc scenario, h []Op, x *sched.X, pr *playResult) {
 			continue
 		}
 		disc := o.disc
-		v, unsolicited := m.step(op, in, o)
+		v, unsolicited := m.step(op, in, o, handled)
 		if v != nil {
 			pr.out = bfs.Outcome{FailKey: op.kind() + "/" + v.key, FailDesc: fmt.Sprintf("op %d %s: %s", i, op, v.desc)}
 			pr.done = true
@@ -879,6 +909,13 @@ func classify(r *vrt.R, sc scenario, h []Op, out bfs.Outcome) {
 	}
 	if declined {
 		r.Class("history-with-client-decline")
+	}
+	// SUCCESSFUL for an id right after SUCCESSFUL for the same id: the second one finds the pack applied
+	for i := 1; i < len(h); i++ {
+		if h[i].K == "R" && h[i-1].K == "R" && h[i].P == h[i-1].P && h[i].S == int(packet.SuccessfulResourcePackResponseStatus) && h[i-1].S == h[i].S && !out.Terminal && !sc.proto.Lower(version.Minecraft_1_20_3) {
+			r.Class("repeated-success-for-applied-pack")
+			break
+		}
 	}
 	if forcedAfterDecline {
 		r.Class("forced-pack-queued-after-decline")
